@@ -1170,6 +1170,52 @@ theorem session_step_keys_code (c : Cfg) (hc : c.simBoundInclusive = true) (F : 
   exact session_steps_from_outer c hc F D.toGrid n r B I k hk (max d.p D.dH.p) (max_le hdp hHp)
     (dec_mono _ _ _ (le_max_left _ _) hd.dec) (dec_mono _ _ _ (le_max_right _ _) D.wH.dec) fuel hf
 
+
+/-- every `a / 10^p` has a canonical digit string: integer part `a / 10^p`, `q ≤ p` fraction digits, the last one non-zero. -/
+theorem canon_exists (p : ℕ) : ∀ a : ℕ, ∃ ip f q : ℕ, q ≤ p ∧ f < 10 ^ q ∧ (q = 0 ∨ f % 10 ≠ 0) ∧
+    ((a : ℚ) / (10 : ℚ) ^ p = (ip : ℚ) + (f : ℚ) / (10 : ℚ) ^ q) ∧ ip = a / 10 ^ p := by
+  induction p with
+  | zero => intro a; exact ⟨a, 0, 0, le_refl _, by norm_num, Or.inl rfl, by simp, by simp⟩
+  | succ p ih =>
+    intro a
+    by_cases h10 : a % 10 = 0
+    · obtain ⟨a', rfl⟩ : ∃ a', a = 10 * a' := ⟨a / 10, by omega⟩
+      obtain ⟨ip, f, q, hq, hf, hmin, hval, hip⟩ := ih a'
+      refine ⟨ip, f, q, by omega, hf, hmin, ?_, ?_⟩
+      · rw [← hval, pow_succ]; push_cast
+        have : (0 : ℚ) < (10 : ℚ) ^ p := by positivity
+        field_simp
+      · rw [hip, pow_succ, Nat.mul_comm (10 ^ p) 10, Nat.mul_div_mul_left _ _ (by norm_num : 0 < 10)]
+    · refine ⟨a / 10 ^ (p + 1), a % 10 ^ (p + 1), p + 1, le_refl _, Nat.mod_lt _ (by positivity), Or.inr ?_, ?_, rfl⟩
+      · rw [Nat.mod_mod_of_dvd _ (dvd_pow_self 10 (by omega : p + 1 ≠ 0))]; exact h10
+      · have h := Nat.div_add_mod a (10 ^ (p + 1))
+        have hc : (a : ℚ) = ((10 ^ (p + 1) : ℕ) : ℚ) * ((a / 10 ^ (p + 1) : ℕ) : ℚ) + ((a % 10 ^ (p + 1) : ℕ) : ℚ) := by
+          exact_mod_cast h.symm
+        have : (0 : ℚ) < (10 : ℚ) ^ (p + 1) := by positivity
+        rw [eq_comm, ← sub_eq_zero]
+        field_simp
+        push_cast at hc
+        linarith
+
+/-- **written_of_dec**: a multiple of `10^-p` whose integer part has few enough digits is a written decimal —
+discharges the hypothesis `∃ d, Written (g k) d` of the session-step clause from a digit bound. -/
+theorem written_of_dec (x : ℚ) (p : ℕ) (m : ℤ) (hx : x = m / pow10 p) (hdig : magOf (m.natAbs / 10 ^ p) + p ≤ 14) :
+    ∃ d : DecStr, Written x d := by
+  obtain ⟨ip, f, q, hq, hf, hmin, hval, hip⟩ := canon_exists p m.natAbs
+  refine ⟨⟨ip, f, q, hf, hmin, by rw [hip]; omega⟩, ?_⟩
+  unfold Written DecStr.abs
+  have hp10 : (0 : ℚ) < (10 : ℚ) ^ p := by positivity
+  rw [← hval, hx, pow10_eq, abs_div, abs_of_pos hp10, Nat.cast_natAbs, Int.cast_abs]
+
+/-- the session-step clause with a digit bound instead of `∃ d, Written (g k) d`. -/
+theorem session_step_keys_digits (c : Cfg) (hc : c.simBoundInclusive = true) (F : Fl) (hu : F.u * 10 ^ 14 ≤ 1 / 4)
+    (D : DGrid) (n : ℕ) (r : ℚ) (B : Budget F D.toGrid (n + 1) r) (I : InnerOK F D.toGrid (n + 1))
+    (k : ℕ) (hk : k ≤ n) (m : ℤ) (hm : D.toGrid.g (k:ℤ) = m / pow10 D.toGrid.p)
+    (hdig : magOf (m.natAbs / 10 ^ D.toGrid.p) + D.toGrid.p ≤ 14) (fuel : ℕ) (hf : 2 ≤ fuel) :
+    sessionStepKeysC c F.fl fuel (D.toGrid.h F) (label F D.toGrid (k:ℤ)) = some [label F D.toGrid (k:ℤ)] := by
+  obtain ⟨d, hd⟩ := written_of_dec _ _ m hm hdig
+  exact session_step_keys_code c hc F hu D n r B I k hk d hd fuel hf
+
 /-! ### (wave 2) the budget in the form `|x − g k| < dt/2 − slack` -/
 
 /-- how much of the half step the rounding errors of `normalize` eat, on a horizon of `N` steps. -/
@@ -1538,6 +1584,8 @@ theorem budget_nonvacuous :
 #print axioms Budget.inner
 #print axioms session_steps_from_outer
 #print axioms session_step_keys_code
+#print axioms written_of_dec
+#print axioms session_step_keys_digits
 #print axioms normalize_near_half
 #print axioms slack_double
 #print axioms C05_grid_of_good
